@@ -66,6 +66,33 @@ class ExactLearner(ClassifierMixin, BaseEstimator):
         return np.stack([1 - p, p], axis=1)
 
 
+class NestedExactLearner(ClassifierMixin, BaseEstimator):
+    """a composite estimator in the style of sklearn's Pipeline: the sub-estimator is a constructor parameter and is fitted IN PLACE (no clone inside
+    fit - cloning/copying the whole composite is the caller's job).  Two copies of the composite must not share the sub-estimator object."""
+
+    def __init__(self, step=None):
+        self.step = step
+
+    def fit(self, X, y, sample_weight=None):
+        self.step.fit(X, y, sample_weight=sample_weight)
+        return self
+
+    @property
+    def map_(self):
+        return self.step.map_
+
+    def predict(self, X):
+        return self.step.predict(X)
+
+    def predict_proba(self, X):
+        return self.step.predict_proba(X)
+
+
+def _learner(job):
+    """every other job uses the composite learner"""
+    return NestedExactLearner(step=ExactLearner()) if sum(job["id"].encode()) % 2 else ExactLearner()
+
+
 class ConstLearner(ClassifierMixin, BaseEstimator):
     def __init__(self, strategy="constant", constant=0):
         self.strategy = strategy
@@ -224,9 +251,9 @@ def _fit(acc, job, deadline):
         grid = pd.DataFrame(cols)
         cw = real("cw", 0, 1)
         if n % 2:
-            gs = red.GridSearch(ExactLearner(), constraints=mc.make_moment(name, "difference", 0.01), grid=grid, constraint_weight=0.5)
+            gs = red.GridSearch(_learner(job), constraints=mc.make_moment(name, "difference", 0.01), grid=grid, constraint_weight=0.5)
         else:  # the user grid arrives through set_params after construction
-            gs = red.GridSearch(ExactLearner(), constraints=mc.make_moment(name, "difference", 0.01), constraint_weight=0.5)
+            gs = red.GridSearch(_learner(job), constraints=mc.make_moment(name, "difference", 0.01), constraint_weight=0.5)
             gs.set_params(grid=grid)
         gs.constraint_weight = cw
         gs.objective_weight = 1 - cw
@@ -350,7 +377,7 @@ def replay(cex):
             cols[c] = pd.Series([float(next(conc)) for _ in range(len(probe.index))], index=probe.index)
     grid = pd.DataFrame(cols)
     cw = f("cw", "0.5")
-    gs = red.GridSearch(ExactLearner(), constraints=mc.make_moment(name, "difference", 0.01), grid=grid, constraint_weight=cw)
+    gs = red.GridSearch(_learner(job), constraints=mc.make_moment(name, "difference", 0.01), grid=grid, constraint_weight=cw)
     try:
         gs.fit(X, list(y), sensitive_features=sf)
         pred = gs.predict(X)
